@@ -32,9 +32,9 @@ var structuredTypes = []string{"Card", "TimeProfile", "Task", "Weekdays", "Segme
 func validText(t *rapid.T, typ string) string {
 	switch typ {
 	case "Date":
-		return fmt.Sprintf("%04d-%02d-%02d", rapid.IntRange(1, 9999).Draw(t, "y"), rapid.IntRange(1, 12).Draw(t, "m"), rapid.IntRange(1, 28).Draw(t, "d"))
+		return fmt.Sprintf("%04d-%02d-%02d", rapid.IntRange(2, 9999).Draw(t, "y"), rapid.IntRange(1, 12).Draw(t, "m"), rapid.IntRange(1, 28).Draw(t, "d"))
 	case "DateTime":
-		return fmt.Sprintf("%04d-%02d-%02d %02d:%02d:%02d%s", rapid.IntRange(1, 9999).Draw(t, "y"), rapid.IntRange(1, 12).Draw(t, "m"), rapid.IntRange(1, 28).Draw(t, "d"),
+		return fmt.Sprintf("%04d-%02d-%02d %02d:%02d:%02d%s", rapid.IntRange(2, 9999).Draw(t, "y"), rapid.IntRange(1, 12).Draw(t, "m"), rapid.IntRange(1, 28).Draw(t, "d"),
 			rapid.IntRange(0, 23).Draw(t, "h"), rapid.IntRange(0, 59).Draw(t, "mi"), rapid.IntRange(0, 59).Draw(t, "s"), rapid.SampledFrom([]string{"", " UTC", " PDT", " +0330", " CEST"}).Draw(t, "zone"))
 	case "HHmm":
 		return fmt.Sprintf("%02d:%02d", rapid.IntRange(0, 23).Draw(t, "h"), rapid.IntRange(0, 59).Draw(t, "mi"))
@@ -57,7 +57,7 @@ func validText(t *rapid.T, typ string) string {
 	return fmt.Sprintf("%d.%d.%d.%d:%d", rapid.IntRange(1, 254).Draw(t, "a"), rapid.IntRange(0, 255).Draw(t, "b"), rapid.IntRange(0, 255).Draw(t, "c"), rapid.IntRange(1, 254).Draw(t, "d"), rapid.IntRange(1, 59999).Draw(t, "port"))
 }
 
-var hostile = []string{"", " ", "\t", "\x00", "-", "+", ":", ".", "/", "T", "Z", "x", "é", "٣", "１", "\u200b", "\"", "\\", "{", "[", "null", "9", "99", "0", "00", "-1", "1e3", "0x10", "१२"}
+var hostile = []string{":", ";", "<", "=", ">", "?", "@", "A", "B", "I", "/", ".", "*", "", " ", "\t", "\x00", "-", "+", ":", ".", "/", "T", "Z", "x", "é", "٣", "１", "\u200b", "\"", "\\", "{", "[", "null", "9", "99", "0", "00", "-1", "1e3", "0x10", "१२"}
 
 func mutateText(t *rapid.T, s string) string {
 	n := rapid.IntRange(1, 3).Draw(t, "mutations")
@@ -334,5 +334,200 @@ func checkBad(c badCase) *rp.Fail {
 }
 
 func badProps() []rp.Prop {
-	return []rp.Prop{rp.P[badCase]{Name: "malformed", Checks: ev.Pick(60000, 6000000) / ev.Shards(), Gen: genBad, Check: checkBad}}
+	return []rp.Prop{
+		rp.P[badCase]{Name: "malformed", Checks: ev.Pick(60000, 6000000) / ev.Shards(), Gen: genBad, Check: checkBad},
+		rp.P[aliasCase]{Name: "carry-alias", Checks: ev.Pick(20000, 2000000) / ev.Shards(), Gen: genAlias, Sweep: sweepAliases, Check: checkAlias},
+	}
+}
+
+// carry aliases: a cache keyed on digits packed without validating them ('key = key<<4 + c-'0'', 'key = key*10 + c-'0'')
+// maps "2023-02-1@" (or "2023-02-1:") to the key of "2023-02-20". The valid text is parsed first (so that it is in any
+// cache), then the alias - a text with a non-digit where a digit belongs, which must be rejected - then the valid text again.
+type aliasCase struct {
+	Type  string `json:"type"`
+	Valid string `json:"valid"`
+	Alias string `json:"alias"`
+}
+
+func aliasesOf(valid string) []string {
+	var out []string
+	b := []byte(valid)
+	isD := func(c byte) bool { return c >= '0' && c <= '9' }
+	for i := 0; i+1 < len(b); i++ {
+		// the next digit position after i (separators in between are skipped by such packers)
+		j := i + 1
+		for j < len(b) && !isD(b[j]) {
+			j++
+		}
+		if !isD(b[i]) || j >= len(b) || b[i] == '0' {
+			continue
+		}
+		for _, base := range []byte{16, 10} {
+			a := append([]byte(nil), b...)
+			a[i]--
+			a[j] += base
+			out = append(out, string(a))
+		}
+	}
+	// and the other direction: digit+1, next digit 'minus base' (characters below '0')
+	for i := 0; i+1 < len(b); i++ {
+		j := i + 1
+		for j < len(b) && !isD(b[j]) {
+			j++
+		}
+		if !isD(b[i]) || j >= len(b) || b[i] == '9' {
+			continue
+		}
+		for _, base := range []byte{16, 10} {
+			a := append([]byte(nil), b...)
+			a[i]++
+			a[j] -= base
+			out = append(out, string(a))
+		}
+	}
+	return out
+}
+
+func parseAs(typ, text string) (got string, err error, pnc any) {
+	js, _ := json.Marshal(text)
+	pnc = try(func() {
+		switch typ {
+		case "Date":
+			var v types.Date
+			if err = json.Unmarshal(js, &v); err == nil {
+				got = v.String()
+			}
+		case "ParseDate":
+			var v types.Date
+			if v, err = types.ParseDate(text); err == nil {
+				got = v.String()
+			}
+		case "DateTime":
+			var v types.DateTime
+			if err = json.Unmarshal(js, &v); err == nil {
+				got = v.String()
+			}
+		case "HHmm":
+			var v types.HHmm
+			if err = json.Unmarshal(js, &v); err == nil {
+				got = v.String()
+			}
+		case "HHmmFromString":
+			var v *types.HHmm
+			if v, err = types.HHmmFromString(text); err == nil {
+				got = v.String()
+			}
+		case "SystemTime":
+			var v *types.SystemTime
+			if v, err = types.TimeFromString(text); err == nil {
+				got = v.String()
+			}
+		case "PIN":
+			var v types.PIN
+			if err = json.Unmarshal(js, &v); err == nil {
+				got = fmt.Sprint(uint32(v))
+			}
+		case "Card":
+			var v types.Card
+			doc := fmt.Sprintf(`{"card-number":8165538,"start-date":%s,"end-date":"2099-12-31","doors":{"1":1,"2":0,"3":0,"4":0}}`, js)
+			if err = json.Unmarshal([]byte(doc), &v); err == nil {
+				got = v.From.String()
+			}
+		}
+	})
+	return
+}
+
+func checkAlias(c aliasCase) *rp.Fail {
+	ev.Case("carry-alias/"+c.Type, true, c.Type+c.Valid+c.Alias)
+	if ev.WantSample("carry-alias/" + c.Type) {
+		ev.Sample("carry-alias/"+c.Type, c)
+	}
+	want := c.Valid
+	if c.Type == "PIN" {
+		want = strings.TrimLeft(c.Valid, "0")
+		if want == "" {
+			want = "0"
+		}
+	}
+	for step, text := range []string{c.Valid, c.Alias, c.Valid} {
+		got, err, p := parseAs(c.Type, text)
+		if p != nil {
+			return rp.Failf("types."+c.Type+"/panic-on-bad-text", "parsing %q panicked: %v", text, p)
+		}
+		if step == 1 {
+			// a blank, a sign or a point where a digit belongs is a layout deviation that a lenient parser may read as a number
+			// (" 1" for "01"): such aliases are only required not to disturb the parser; every other non-digit must be rejected
+			lenient := false
+			for i := 0; i < len(text) && i < len(c.Valid); i++ {
+				if text[i] != c.Valid[i] && strings.ContainsRune(" +-.", rune(text[i])) {
+					lenient = true
+				}
+			}
+			if err == nil && !lenient {
+				return rp.Failf("types."+c.Type+"/accepts-out-of-domain", "%q (a non-digit where a digit belongs) was accepted as %s right after %q had been parsed", text, got, c.Valid)
+			}
+			continue
+		}
+		if err != nil || !strings.HasPrefix(got, want) {
+			return rp.Failf("types."+c.Type+"/roundtrip", "step %d: %q parsed as %q, %v (sequence: valid text, carry alias %q, valid text)", step, text, got, err, c.Alias)
+		}
+	}
+	return nil
+}
+
+func sweepAliases(yield func(aliasCase) bool) {
+	idx := 0
+	emit := func(typ, valid string) bool {
+		for _, a := range aliasesOf(valid) {
+			idx++
+			if ev.Mine(idx) && !yield(aliasCase{typ, valid, a}) {
+				return false
+			}
+		}
+		return true
+	}
+	for _, d := range []string{"2023-02-20", "2024-10-31", "2030-06-15", "1999-12-31", "2000-01-01", "2024-02-29", "2021-11-20", "2010-10-10"} {
+		for _, typ := range []string{"Date", "ParseDate", "Card"} {
+			if !emit(typ, d) {
+				return
+			}
+		}
+		if !emit("DateTime", d+" 12:30:45") {
+			return
+		}
+	}
+	for _, tm := range []string{"08:30", "12:20", "23:59", "10:10", "20:00"} {
+		for _, typ := range []string{"HHmm", "HHmmFromString"} {
+			if !emit(typ, tm) {
+				return
+			}
+		}
+		if !emit("SystemTime", tm+":20") {
+			return
+		}
+	}
+	for _, pin := range []string{"7531", "120000", "999999", "102030"} {
+		if !emit("PIN", pin) {
+			return
+		}
+	}
+}
+
+func genAlias(t *rapid.T) aliasCase {
+	typ := rapid.SampledFrom([]string{"Date", "ParseDate", "Card", "DateTime", "HHmm", "HHmmFromString", "SystemTime", "PIN"}).Draw(t, "type")
+	base := map[string]string{"ParseDate": "Date", "Card": "Date", "HHmmFromString": "HHmm"}[typ]
+	if base == "" {
+		base = typ
+	}
+	valid := validText(t, base)
+	if typ == "DateTime" {
+		valid = valid[:19]
+	}
+	as := aliasesOf(valid)
+	if len(as) == 0 {
+		valid = map[string]string{"Date": "2023-02-20", "DateTime": "2023-02-20 12:30:45", "HHmm": "12:20", "SystemTime": "12:20:30", "PIN": "120000"}[base]
+		as = aliasesOf(valid)
+	}
+	return aliasCase{typ, valid, as[rapid.IntRange(0, len(as)-1).Draw(t, "alias")]}
 }
